@@ -44,7 +44,7 @@ PROP = dict(
         "description (the library builds tilted pillars from the top and bottom layer); the generator keeps DX = f(i), DY = f(j)",
         "radial / spider grids, LGRs, numerical aquifer cells, PINCH/MINPV, ACTNUM edited by EQUALS/COPY etc. (C12)",
         "transmissibilities of NNCs are not part of an EGRID file (they live in the INIT file) and are not compared",
-        "deck keyword GRIDUNIT different from the deck unit system, MAPAXES transformation arithmetic",
+        "MAPAXES transformation arithmetic (GRIDUNIT naming another length unit than the deck's is generated in 15 % of the cases, for every input form, since seeded change C13)",
         "PVT-M is used for the input forms; EclipseGrid::save() refuses it by design, files are written in METRIC/FIELD/LAB",
         "ThreadSanitizer sees the interleavings that occur; the loop is a static schedule with disjoint writes",
         "formatted EGRID files carry 8 significant decimal digits per REAL, one float ulp can be lost; bit-exactness of formatted "
